@@ -38,6 +38,9 @@ pub(crate) struct ForkScenario<'a> {
     /// index view + stored tip right before the switch
     before_switch: RefCell<Option<String>>,
     explore_switch_moment: bool,
+    /// the peer switches to the new branch while the client is down (C08: crash, then restart)
+    pub switch_while_down: bool,
+    pub filter_batch: u64,
 }
 
 fn trusted_store(sim: &Sim) -> String {
@@ -63,7 +66,7 @@ impl<'a> Scenario for ForkScenario<'a> {
     fn init(&self, old: Option<Sim>) -> Sim {
         let mut world = World::new(vec![self.old.clone(), self.new.clone()], self.cfg.cp_interval);
         world.add_peer(1, 0, self.old.tip_number());
-        world.filter_batch = 6;
+        world.filter_batch = self.filter_batch;
         crate::verif::client::set_now(crate::verif::world::BASE_TS + 1_000_000);
         let mut sim = match old {
             Some(old) => Sim::recycle(old, self.cfg.clone(), world),
@@ -114,6 +117,16 @@ impl<'a> Scenario for ForkScenario<'a> {
         }
         self.switch(sim);
         true
+    }
+    fn on_restart(&self, sim: &mut Sim) {
+        if self.switch_while_down && !self.switched.get() {
+            // the chain reorganised while the client was down: the peer comes back on the new
+            // branch (restart_all connects it with this view)
+            self.switched.set(true);
+            let p = sim.world.peer_mut(1);
+            p.chain = 1;
+            p.height = self.new_tip;
+        }
     }
 }
 
@@ -200,7 +213,7 @@ pub(crate) fn run(opts: &Opts, report: &mut Report) {
             new_tip,
             switched: Cell::new(false),
             before_switch: RefCell::new(None),
-            explore_switch_moment: true,
+            explore_switch_moment: true, switch_while_down: false, filter_batch: 6,
         };
         let long_fork = item.depth > item.last_n;
         let mut skipped_banned = 0u64;
@@ -318,7 +331,7 @@ pub(crate) fn debug_case() {
     let regs = vec![Reg { script: s.a.clone(), is_lock: true, start: 0 }];
     let sc = ForkScenario {
         env: &env, name: "dbg".into(), old, new, regs, cfg: ClientCfg { last_n: 2, cp_interval: 4, ..Default::default() },
-        new_tip, switched: Cell::new(false), before_switch: RefCell::new(None), explore_switch_moment: true,
+        new_tip, switched: Cell::new(false), before_switch: RefCell::new(None), explore_switch_moment: true, switch_while_down: false, filter_batch: 6,
     };
     let mut sim = sc.init(None);
     sim.record_trace = true;
@@ -360,6 +373,7 @@ pub(crate) fn scenario<'a>(env: &'a Env, last_n: u64, depth: u64, growth: u64, s
             switched: Cell::new(false),
             before_switch: RefCell::new(None),
             explore_switch_moment: false,
+            switch_while_down: false, filter_batch: 6,
         },
         regs,
     )
